@@ -21,7 +21,8 @@ RULE = ("constructive random grammars (<=5 non-terminals, <=4 alternatives - 6-7
         "word before ':', ATWORD = word behind '@', NUM), 5 keyword sets x 4 synonym maps, texts of 1-12 pieces, grammar "
         "S -> ITEM S | empty with one alternative per producible token name; leaves compared with an independent tokenizer. "
         "Non-trivial = a returned tree for a grammar that has a common-prefix group or a parse-table conflict; distinct by "
-        "(grammar, names, tokens, setting).")
+        "(grammar, names, tokens, setting)."
+        " Also: parsers built as objects of a user's LLParser subclass after same-named sibling classes used other grammars.")
 ASSUMPTIONS = [
     "ParsingError is always an acceptable outcome here (acceptance is judged by C02)",
     "exceptions from the constructor mean 'grammar not accepted' and are only counted (exactness of GrammarIsRecursive is C03)",
